@@ -15,7 +15,7 @@ from concurrent.futures import ThreadPoolExecutor
 from ..common import *
 from .c20 import write_project, reach_key, shape_of, ANSI
 
-LEVEL = "model_checked"
+LEVEL = "model_checking"
 
 
 def build_seq():
